@@ -228,6 +228,11 @@ func (c *checker) scope(spec *ukit.Spec) {
 			c.compareBehaviour(spec, sch, rebuilt, v.Name)
 		})
 	}
+	// The same scope as the input, an output, a signal handler and a signal emitter of a one-step plugin, carried by
+	// a real hello message: this is where the description is nested deepest and where the client's own decoder
+	// settings apply.
+	c.plugin(pluginSpec{"wrapped " + c.name, []stepSpec{{ID: "s", Input: spec, Outputs: map[string]*ukit.Spec{"success": spec},
+		Handlers: map[string]*ukit.Spec{"h": spec}, Emitters: map[string]*ukit.Spec{"e": spec}}}}, true)
 }
 
 // ---- whole plugin schemas through the hello message ------------------------------------------------
@@ -291,7 +296,7 @@ type helloChannel struct {
 
 func (helloChannel) Close() error { return nil }
 
-func (c *checker) plugin(p pluginSpec) {
+func (c *checker) plugin(p pluginSpec, wrapped bool) {
 	var orig *schema.SchemaSchema
 	if !c.guard("build plugin", func() { orig = buildPlugin(p) }) {
 		return
@@ -319,6 +324,9 @@ func (c *checker) plugin(p pluginSpec) {
 			return cli.ReadSchema()
 		},
 	}
+	if wrapped {
+		delete(rebuilds, "UnserializeSchema")
+	}
 	for how, f := range rebuilds {
 		c.res.Evaluations++
 		c.guard("rebuild via "+how, func() {
@@ -345,6 +353,9 @@ func (c *checker) plugin(p pluginSpec) {
 				}
 				ukit.Link(st.Input)
 				c.compareBehaviour(st.Input, os.InputValue, rs.InputValue, how+", input of "+st.ID)
+				if wrapped {
+					continue // the other three positions hold the same scope; their descriptions were compared above
+				}
 				for id, o := range st.Outputs {
 					ukit.Link(o)
 					if rs.OutputsValue[id] == nil {
@@ -404,7 +415,7 @@ func main() {
 			} else {
 				p := plugins()[b.Idx]
 				c := &checker{res: &res, name: "plugin " + p.Name, rp: replay{"plugin", nil, b.Idx}}
-				c.plugin(p)
+				c.plugin(p, false)
 				res.Samples = append(res.Samples, map[string]any{"plugin": p.Name, "steps": len(p.Steps), "evaluations": res.Evaluations})
 			}
 			return res
@@ -419,11 +430,11 @@ func main() {
 				(&checker{res: &res, name: r.Spec.String(), rp: r}).scope(r.Spec)
 			} else {
 				p := plugins()[r.Idx]
-				(&checker{res: &res, name: "plugin " + p.Name, rp: r}).plugin(p)
+				(&checker{res: &res, name: "plugin " + p.Name, rp: r}).plugin(p, false)
 			}
 			return res.Findings
 		},
-		Rule: "every spec of U_2 wrapped as a scope (all kinds, units, enums with display names, defaults, presence rules, disabled properties, nested scopes, recursive references) plus a display/unenforced-id scope: d = SelfSerialize; for each of {direct, CBOR round trip, YAML round trip}: rebuilt = UnserializeScope(d'), d2 = rebuilt.SelfSerialize must equal d, and rebuilt must agree with the original on accept/reject, unserialized value (map-based schemas) and serialized form for every raw value of V(spec); 3 whole plugin schemas (1-2 steps, several outputs, signal handlers and emitters with recursive and one-of scopes) rebuilt through UnserializeSchema and through a real hello message read by Client.ReadSchema, with the same comparison for every input, output and signal data scope; non-trivial = schemas that described themselves",
+		Rule: "every spec of U_2 wrapped as a scope (all kinds, units, enums with display names, defaults, presence rules, disabled properties, nested scopes, recursive references) plus a display/unenforced-id scope: d = SelfSerialize; for each of {direct, CBOR round trip, YAML round trip}: rebuilt = UnserializeScope(d'), d2 = rebuilt.SelfSerialize must equal d, and rebuilt must agree with the original on accept/reject, unserialized value (map-based schemas) and serialized form for every raw value of V(spec); every one of those scopes also as input, output, signal handler and signal emitter of a one-step plugin rebuilt from a real hello message by Client.ReadSchema (description fixed point, behaviour of the input); 3 whole plugin schemas (1-2 steps, several outputs, signal handlers and emitters with recursive and one-of scopes) rebuilt through UnserializeSchema and through a real hello message read by Client.ReadSchema, with the same comparison for every input, output and signal data scope; non-trivial = schemas that described themselves",
 		Assumptions: []string{
 			"descriptions are compared after CBOR normalisation (dynamic Go types of numbers and maps differ by transport)",
 			"schemas referring to foreign namespaces are excluded (they cannot be linked from their own description alone)",
